@@ -36,7 +36,7 @@ func FilterFloat1(m modeling.Mesh, attribute string, filter func(v float64) bool
 	finalIndices := make([]int, 0)
 	for i := 0; i < indices.Len(); i++ {
 		if _, ok := verticeToKeep[indices.At(i)]; ok {
-			finalIndices = append(finalIndices, i)
+			finalIndices = append(finalIndices, indices.At(i))
 		}
 	}
 
@@ -74,7 +74,7 @@ func FilterFloat2(m modeling.Mesh, attribute string, filter func(v vector2.Float
 	finalIndices := make([]int, 0)
 	for i := 0; i < indices.Len(); i++ {
 		if _, ok := verticeToKeep[indices.At(i)]; ok {
-			finalIndices = append(finalIndices, i)
+			finalIndices = append(finalIndices, indices.At(i))
 		}
 	}
 
@@ -112,7 +112,7 @@ func FilterFloat3(m modeling.Mesh, attribute string, filter func(v vector3.Float
 	finalIndices := make([]int, 0)
 	for i := 0; i < indices.Len(); i++ {
 		if verticeToKeep[indices.At(i)] {
-			finalIndices = append(finalIndices, i)
+			finalIndices = append(finalIndices, indices.At(i))
 		}
 	}
 
@@ -150,7 +150,7 @@ func FilterFloat4(m modeling.Mesh, attribute string, filter func(v vector4.Float
 	finalIndices := make([]int, 0)
 	for i := 0; i < indices.Len(); i++ {
 		if _, ok := verticeToKeep[indices.At(i)]; ok {
-			finalIndices = append(finalIndices, i)
+			finalIndices = append(finalIndices, indices.At(i))
 		}
 	}
 
